@@ -17,6 +17,9 @@ pub(crate) struct Ident {
     name: String,
     ty: Option<Cow<'static, TypeLayout>>,
     read_only: bool,
+    /// Bound by `import name from module`: the name may be shadowed by a local, but while it
+    /// stands for the module's member nothing can be written through it.
+    imported: bool,
 }
 
 impl Compile for Ident {
@@ -89,11 +92,22 @@ impl Ident {
             name,
             ty,
             read_only,
+            imported: false,
         }
     }
 
     pub fn mark_const(&mut self) {
         self.read_only = true;
+    }
+
+    pub fn mark_imported(&mut self) {
+        self.imported = true;
+    }
+
+    /// Is an index / field assignment rooted at this name a write to something that must not
+    /// change: a `const`, or the member of another module?
+    pub fn is_write_protected(&self) -> bool {
+        self.read_only || self.imported
     }
 
     pub fn is_const(&self) -> bool {
@@ -121,6 +135,7 @@ impl Ident {
             name: self.name.clone(),
             read_only: self.read_only,
             ty: Some(ty),
+            imported: self.imported,
         }
     }
 
@@ -200,6 +215,7 @@ impl Parser {
             name,
             ty: None,
             read_only: false,
+            imported: false,
         })
     }
 }
